@@ -4,6 +4,7 @@
 package fw
 
 import (
+	"compress/gzip"
 	"bytes"
 	"fmt"
 	"io"
@@ -40,6 +41,7 @@ type Fault struct {
 	CT      string `json:"content_type,omitempty"`
 	Body    []byte `json:"-"`                // overrides the origin-tagged body
 	GapUS   int    `json:"gap_us,omitempty"` // pause between the body writes
+	Gzip    bool   `json:"gzip,omitempty"`   // the backend answers with Content-Encoding: gzip (the body bytes are what they are)
 }
 
 func (f Fault) String() string {
@@ -52,6 +54,9 @@ func (f Fault) String() string {
 	}
 	if f.CT == "-" {
 		s += "/no-ct"
+	}
+	if f.Gzip {
+		s += "/gzip"
 	}
 	return s
 }
@@ -158,6 +163,13 @@ func (f *FW) answer(i int, r *backend.Record) *backend.Resp {
 	if ft.Body != nil {
 		body = ft.Body
 	}
+	if ft.Gzip {
+		var zb bytes.Buffer
+		zw := gzip.NewWriter(&zb)
+		zw.Write(body)
+		zw.Close()
+		body = zb.Bytes()
+	}
 	at.FullBody = body
 	ct := ft.CT
 	if ct == "" {
@@ -167,6 +179,9 @@ func (f *FW) answer(i int, r *backend.Record) *backend.Resp {
 	hdr := [][2]string{{"Content-Type", ct}, {"X-Origin", origin}, {"X-Attempt-" + strconv.Itoa(i), strconv.Itoa(a)}}
 	if ct == "-" { // a backend that declares no content type
 		hdr = hdr[1:]
+	}
+	if ft.Gzip {
+		hdr = append(hdr, [2]string{"Content-Encoding", "gzip"})
 	}
 	resp := &backend.Resp{Status: 200 + i, Headers: hdr, Body: body, Chunked: ft.Chunked, MaxStall: 1500 * time.Millisecond}
 	at.Status = resp.Status
